@@ -31,7 +31,7 @@ TRUSTED = [
     "Lean 4 kernel; axioms propext, Classical.choice, Quot.sound only (audited per theorem each run)",
     "tie T1: Gen.normalizeAxisInt / Gen.checkIndexInt / bcastOk / bcastDim regenerated from _utils.normalize_axis, _slicing.check_index and "
     "_umath._get_broadcast_shape each run",
-    "tie T2: hand model SparseV.Model.Validate (reduction axis tuples, COO.transpose, COO.reshape, COO.__init__, check_compressed_axes, index arrays) and "
+    "tie T2: hand model SparseV.Model.Validate (reduction axis tuples, COO.transpose, COO.reshape, COO.__init__, GCXS.__init__ (triple form), check_compressed_axes, index arrays) and "
     "SparseV.Model.Loops (fuel model of get_slicing_selection) compared with the implementation by this run on exhaustive small grids",
     "NumPy's accept/reject verdict is the specification of leg C; where NumPy has no counterpart the documented contract written out in c18_worker.py",
     "the operating system's process control: a worker that misses its deadline is killed, exit statuses are read with waitpid",
@@ -248,6 +248,65 @@ def leg_a(ctx, rng, pool):
                 # sorted/has_duplicates switch off the passes after the validation, which is what the model covers
                 return [int(v) for v in sparse.COO(coords, data, shape=None if sh is None else tuple(sh), sorted=True, has_duplicates=False).shape]
             add("COO.__init__", ["v_ctor", rows, cols, dn, n, sh], impl_verdict(f))
+    # GCXS.__init__ (triple form): every small well-formed triple and its damaged variants (lengths, index pointer ends / order, indices outside the
+    # uncompressed extent, repeated / descending indices within a row), for 0-d .. 3-d shapes and every compressed_axes candidate
+    def gcxs_req(dn, n, ind, ptr, sh, ca):
+        def f():
+            data = np.int64(1) if dn == 0 else (np.arange(1, n + 1, dtype=np.int64) if dn == 1 else np.ones((n, 2), dtype=np.int64))
+            kw = {} if sh is None else {"shape": tuple(sh)}
+            sparse.GCXS((data, np.array(ind, dtype=np.int64), np.array(ptr, dtype=np.int64)), compressed_axes=None if ca is None else list(ca), **kw)
+        add("GCXS.__init__", ["v_gcxs_ctor", dn, n, list(ind), list(ptr), sh, None if ca is None else list(ca)], impl_verdict(f))
+
+    gshapes = [None, [], [0], [2], [3], [1, 1], [2, 2], [1, 2], [2, 1], [2, 0], [0, 2], [-1, 2], [2, 1, 2], [1, 2, 2]]
+    for sh in gshapes:
+        nd = 0 if sh is None else len(sh)
+        cands = [None, [0]] if nd < 2 else [None] + [list(t) for k in (1, 2) for t in itertools.combinations(range(nd), k)] + [[1, 0], [nd], [-1], []]
+        for ca in cands:
+            ok_ca = sh is not None and all(s >= 0 for s in sh) and nd >= 2 and ca and len(ca) < nd and all(0 <= a < nd for a in ca) and list(ca) == sorted(set(ca))
+            if ok_ca:
+                nr = int(np.prod([sh[a] for a in ca]))
+                nc = int(np.prod([s for i, s in enumerate(sh) if i not in ca]))
+            else:
+                nr, nc = (0, sh[0] if sh and nd == 1 and sh[0] >= 0 else 2)
+            # a base triple: one element per row (column r mod nc) when there are columns
+            base_ind = [r % nc for r in range(nr)] if nc else []
+            base_ptr = list(range(nr + 1)) if nc else [0] * (nr + 1)
+            if nd == 1:
+                base_ind, base_ptr = ([0, nc - 1] if nc else []), []
+            if nd == 0:
+                base_ind, base_ptr = [], []
+            variants = [(1, len(base_ind), base_ind, base_ptr)]
+            L = len(base_ind)
+            variants += [(1, L + 1, base_ind, base_ptr), (0, 0, base_ind, base_ptr), (2, L, base_ind, base_ptr), (1, L, base_ind, base_ptr[:-1]), (1, L, base_ind, base_ptr + [L])]
+            if base_ptr:
+                variants += [(1, L, base_ind, [1] + base_ptr[1:]), (1, L, base_ind, base_ptr[:-1] + [L + 1]), (1, L, base_ind, base_ptr[:-1] + [L - 1])]
+            if len(base_ptr) >= 3:
+                for k in range(1, len(base_ptr) - 1):
+                    variants += [(1, L, base_ind, base_ptr[:k] + [L + 1] + base_ptr[k + 1:]), (1, L, base_ind, base_ptr[:k] + [base_ptr[k + 1] + 1] + base_ptr[k + 1:]),
+                                 (1, L, base_ind, base_ptr[:k] + [base_ptr[k - 1]] + base_ptr[k + 1:]), (1, L, base_ind, base_ptr[:k] + [-1] + base_ptr[k + 1:])]
+            for k in range(L):
+                for v in (nc, nc + 2, -1, -nc - 1, 0, nc - 1):
+                    variants.append((1, L, base_ind[:k] + [v] + base_ind[k + 1:], base_ptr))
+            if nd == 0:
+                variants += [(1, 1, [0], []), (1, 2, [0], []), (1, 1, [], []), (1, 1, [3], [0, 1])]
+            if nd == 1:
+                variants += [(1, 1, [0], [7, 7]), (1, 2, [1, 1], []), (1, 2, [1, 0], [])]
+            if ok_ca and nr >= 1 and nc >= 1:     # one crowded row: repeated and descending indices within a row are accepted by design
+                variants += [(1, 2, [nc - 1, nc - 1], [0] + [2] * nr), (1, 2, [nc - 1, 0], [0] + [2] * nr), (1, 3, [0, nc, 0], [0] + [3] * nr)]
+            seen_v = set()
+            for dn, n, ind, ptr in variants:
+                key_ = (dn, n, tuple(ind), tuple(ptr))
+                if key_ in seen_v:
+                    continue
+                seen_v.add(key_)
+                gcxs_req(dn, n, ind, ptr, sh, ca)
+    # exhaustive tiny boxes: all index pointers over {0,1,2} and all indices over {-1,..,2} for two 2-d shapes
+    for sh, ca in (([2, 2], [0]), ([1, 2], [0]), ([2, 1], [1])):
+        nr = sh[ca[0]]
+        for ptr in itertools.product(range(0, 3), repeat=nr + 1):
+            for k in range(0, 3 if full else 2):
+                for ind in itertools.product(range(-1, 3), repeat=k):
+                    gcxs_req(1, k, list(ind), list(ptr), sh, ca)
     # check_compressed_axes
     for nd in range(0, 5):
         cands = [None] + [list(t) for k in range(0, 4) for t in itertools.product(range(-1, nd + 1), repeat=k)]
@@ -362,9 +421,23 @@ def retired_witnesses():
     yield G.case("GCXS(triple,shape,ca)", "ctor", [], [[A([3, 1]), A([0]), A([0, 1, 1])]], {"shape": [2, 2], "compressed_axes": [0]}, "ctor", chunk="ctor")
     yield G.case("GCXS(triple,shape,ca)", "ctor", [], [[A([3]), A([0]), A([0, 2, 2])]], {"shape": [2, 2], "compressed_axes": [0]}, "ctor", chunk="ctor")
     yield G.case("GCXS(triple,shape,ca)", "ctor", [], [[A([3]), A([0]), A([1, 1, 1])]], {"shape": [2, 2], "compressed_axes": [0]}, "ctor", chunk="ctor")
-    # ... its residual (F-c18-gcxs-ctor-contents-unchecked): consistent lengths, contents outside the shape
+    # 748e5d3 ... the contents: consistent lengths, column indices outside the shape (2-d, 3-d, 1-d), index pointers decreasing
     yield G.case("GCXS(triple,shape,ca)", "ctor", [], [[A([-2]), A([3]), A([0, 1])]], {"shape": [1, 1], "compressed_axes": [0]}, "ctor", chunk="ctor")
+    yield G.case("GCXS(triple,shape,ca)", "ctor", [], [[A([-4, -3, 3]), A([4, 0, 0]), A([0, 1, 2, 3])]], {"shape": [3, 2], "compressed_axes": [0]}, "ctor", chunk="ctor")
+    yield G.case("GCXS(triple,shape,ca)", "ctor", [], [[A([7]), A([-1]), A([0, 1, 1])]], {"shape": [2, 2], "compressed_axes": [0]}, "ctor", chunk="ctor")
+    yield G.case("GCXS(triple,shape,ca)", "ctor", [], [[A([7]), A([6]), A([0, 1, 1])]], {"shape": [2, 2, 3], "compressed_axes": [0]}, "ctor", chunk="ctor")
+    yield G.case("GCXS(triple,shape,ca)", "ctor", [], [[A([7]), A([-1]), A([])]], {"shape": [3]}, "ctor", chunk="ctor")
+    yield G.case("GCXS(triple,shape,ca)", "ctor", [], [[A([7]), A([5]), A([])]], {"shape": [3]}, "ctor", chunk="ctor")
     yield G.case("GCXS(triple,shape,ca)", "ctor", [], [[A([7, 8]), A([0, 1]), A([0, 3, 2])]], {"shape": [2, 2], "compressed_axes": [0]}, "ctor", chunk="ctor")
+    # ... well-formed triples stay accepted: a (2, 2, 3) array (index 5 of the 2 x 3 uncompressed extent), a 1-d array, unsorted / repeated
+    # indices within a row (accepted by design), a 0-d array with COO-style coordinates
+    yield G.case("GCXS(triple,shape,ca)", "ctor", [], [[A([7]), A([5]), A([0, 1, 1])]], {"shape": [2, 2, 3], "compressed_axes": [0]}, "ctor", chunk="ctor")
+    yield G.case("GCXS(triple,shape,ca)", "ctor", [], [[A([7]), A([2]), A([])]], {"shape": [3]}, "ctor", chunk="ctor")
+    yield G.case("GCXS(triple,shape,ca)", "ctor", [], [[A([1, 2]), A([1, 0]), A([0, 2])]], {"shape": [1, 2], "compressed_axes": [0]}, "ctor", chunk="ctor")
+    yield G.case("GCXS(triple,shape,ca)", "ctor", [], [[A([1, 2]), A([1, 1]), A([0, 2])]], {"shape": [1, 2], "compressed_axes": [0]}, "ctor", chunk="ctor")
+    yield G.case("GCXS(triple,shape,ca)", "ctor", [], [[A([5]), A([], [0, 1]), A([])]], {"shape": []}, "ctor", chunk="ctor")
+    # ... the open 0-d residual (F-c18-gcxs-ctor-0d-unchecked)
+    yield G.case("GCXS(triple,shape,ca)", "ctor", [], [[A([5]), A([0]), A([])]], {"shape": []}, "ctor", chunk="ctor")
     # f8a1188 nbytes of a 0-d / 1-d GCXS
     for shp in ((), (3,), (0,)):
         yield G.case("x.props", "convert", [gcxs(shp)], [X0], {}, "valid")
@@ -532,7 +605,7 @@ def run(ctx):
     ctx.cov["rule"] = (
         "leg A: exhaustive grids (axis in [-9,9] x ndim<=6; index in [-12,12] x dim<=8; index arrays of length<=3; all pairs of shapes of rank<=2(3) over "
         "extents {0,1,2,3}; all axis tuples of length<=3; all reshape targets of length<=3 over {-1,0,1,2,3,4,6} on 11 shapes, 16 targets on four empty arrays of logical size > 2**53; constructor "
-        "(rows,cols,data rank,length,shape) box; compressed_axes lists of length<=3) and seeded random sorted rows for the slicing kernel, model vs "
+        "(rows,cols,data rank,length,shape) box; GCXS triples (well-formed + every damage of lengths / index pointers / indices, 0-d..3-d, exhaustive tiny boxes); compressed_axes lists of length<=3) and seeded random sorted rows for the slicing kernel, model vs "
         "implementation on error class and accepted value.  Leg C: seeded malformed-argument stream over every operation of the table (rank 0-3, extents "
         "{0,1,2,3}, COO/GCXS(every compressed_axes)/DOK), thorough adds exhaustive small-shape enumerations for reductions, reshape, transpose, getitem and "
         "binary broadcasting and every length-0 placement of the products; each call in a watchdog-supervised subprocess.  A case is non-trivial when an "
